@@ -411,7 +411,35 @@ def rule_public_fail(ctx):
                       % (m.short, e, ", ".join(caught) or "none"), m.loc())
 
 
+def rule_ct_length(ctx):
+    """CT-LENGTH: the private- and public-key operations accept exactly the encodings of the modulus'
+    byte length.  A ciphertext with extra leading zero bytes has the same integer value but another
+    encoding; the implicit-rejection key is derived from the bytes, so accepting it gives the attacker a
+    second query with the same padding verdict and a different synthetic message - a padding oracle.
+    The length gates are evaluated over sample lengths (condeval.outcomes; nothing is run)."""
+    from .common import spec_rows, size_primitives
+    R = "C11.CT-LENGTH"
+    prims = size_primitives(ctx)
+    N = (1 << 2047) | 12345
+    n = 0
+    for q, arg in (("utils.rsakey:RSAKey._raw_private_key_op_bytes", "message"),
+                   ("utils.rsakey:RSAKey._raw_public_key_op_bytes", "ciphertext")):
+        if not ctx.index.has_func(q):
+            continue
+        n += 1
+        spec_rows(ctx, R, q, [
+            dict(what="%s: only encodings of exactly the modulus length are processed" % q.split(".")[-1],
+                 dom={arg: [bytes(255), bytes(256), b"\x00" + bytes(256), bytes(300)]},
+                 env={"self.n": N, "n": N, "__calls__": prims, "__bytes__": True},
+                 abort=lambda e, arg=arg: len(e[arg]) != 256,
+                 msg="a value whose encoding is shorter or LONGER than the modulus (256 bytes here) must be "
+                     "refused before the key operation")])
+    if n < 1:
+        raise AnalysisError("%s: raw key operations of RSAKey not found" % R)
+
+
 RULES = [
+    ("C11.CT-LENGTH", "quick", rule_ct_length),
     ("C11.PUBLIC-FAIL", "quick", rule_public_fail),
     ("C11.KEYHASH", "quick", rule_keyhash),
     ("C11.TAINT", "quick", rule_taint),
